@@ -15,7 +15,8 @@ import ArcaModel.Model.AtpClient
   steps because the implementation does not tell them apart: `clEnd` (`clRet`, else `clTimeout`),
   `sEof` (`sEnd`, else an arbitrary end of stream; nothing if a server-fatal error already ended the
   stream), and an `lRead` that the client's own observation contradicts is reported.
-  Finally the state the history stops in must be one the model allows a finished session to stop in.
+  Finally the state the history stops in must be one the model allows a finished session to stop in;
+  a history that is a run of the model but ends with an unreturned call gets the verdict "hang".
   (Executable glue only; nothing here is used in a theorem.)
 -/
 open Lean
@@ -237,7 +238,10 @@ def handleAtpClientTrace (j : Json) : R Json := do
   if finalOk s then
     return Json.mkObj [("r", "ok"), ("steps", i)]
   else
-    return Json.mkObj [("r", "incomplete"), ("steps", i), ("why", describeUnfinished s)]
+    -- The history is a run of the model but stops with a call that has not returned: the same
+    -- verdict the harness gives a session in which a call timed out ("hang").  The correspondence is
+    -- intact; that the implementation stopped there is reported by the harness's direct oracle.
+    return Json.mkObj [("r", "hang"), ("steps", i), ("why", describeUnfinished s)]
 
 end Arca.Dispatch.AtpClientTrace
 
